@@ -71,6 +71,7 @@ static void resetAll()
     if(var[i]) var[i]->~Buffer();
     var[i] = new(storage[i]) Buffer;
   }
+  liveBlocks = 0;   // histories are independent: a block leaked by an earlier history is reported there (and by LSan)
   freeAttached();
   for(int r = 0; r < 2; ++r)
   {
